@@ -152,7 +152,9 @@ def r1_cv(ctx, res, Tcv):
         # decided on the flow graph, not on the loop's syntax: the wait lies on a cycle, and no path leads from the wait out of
         # that cycle without first passing a branch that reads the shared state again (directly, or through a local that was
         # assigned from it inside the cycle)
-        inloop, pf = _predicate_loop(f, w, cvc[0])
+        from mtblcheck.facts import real_site
+        fw, ww = real_site(prog, f, w)
+        inloop, pf = _predicate_loop(fw, ww, cvc[0])
         res.check(inloop, "C13.R1", sig + ":loop", "wait is re-checked in a loop over its predicate",
                   "pthread_cond_wait is not inside a predicate loop: a spurious or stolen wake-up proceeds with the predicate false", f.loc(w))
         if inloop:
@@ -420,7 +422,7 @@ def r3_join(ctx, res):
         changed = True
         while changed:
             changed = False
-            for g in prog.unit_funcs(unit):
+            for g in prog.unit_funcs(unit, helpers=True):      # an extracted helper that joins makes its callers joiners
                 if g.name in joiners:
                     continue
                 dom = CFG.dominators(g)
